@@ -18,7 +18,7 @@ def _scan_one(args):
         return tid, None, None, "%s: %s" % (type(ex).__name__, ex) + "\n" + traceback.format_exc()[-1500:]
 
 
-HEAVY = {"Guderley", "RiemannGen", "RiemannJWL", "RMTV", "Sedov", "SDRZ", "RadShock"}
+HEAVY = {"CylSandwich", "Guderley", "RiemannGen", "RiemannJWL", "RMTV", "Sedov", "SDRZ", "RadShock"}
 
 
 def run_scans(jobs, procs=None):
